@@ -61,7 +61,7 @@ def stepProc (st : CState) (pid : Nat) : CState :=
   | .statted sm =>
     st.setPhase pid (if dueAt st.fs sm then .toRead false else .toLoad false)
   | .toRead s =>
-    let new : Content := ⟨st.srcVer, magicNumber, true, tmpId pid s, 1, 0⟩
+    let new : Content := ⟨st.srcVer, magicNumber, true, tmpId pid s, 1, recordedName 0⟩
     let tr := trace (tmpId pid s) none false writerOps (if s then (st.procs pid).fates2 else (st.procs pid).fates1)
     st.setPhase pid (.writing s new st.clock tr.1 tr.2)
   | .writing s new now (a :: r) raised =>
